@@ -332,6 +332,8 @@ type gen struct {
 	litLen map[string]int // length at declaration (positions beyond exist only through appends)
 	shape  []string
 	nApp   int
+	bulk   bool // a bulk-output loop has been generated
+	noBulk bool // the wasm run time's bump allocator cannot take it
 }
 
 func (g *gen) tag() string { g.tagN++; return fmt.Sprintf("t%d", g.tagN) }
@@ -456,7 +458,13 @@ func (g *gen) names() (arrs []string, all []string) {
 // Generate draws one program. wantOOB asks for one out-of-range access at a
 // seeded place; otherwise every access is valid.
 func Generate(r *core.Rng, maxOps int, wantOOB bool) *Program {
-	g := &gen{r: r, e: &env{arrs: map[string][]string{}, strs: map[string]string{}, vars: map[string]int64{}}, types: map[string]string{}, litLen: map[string]int{}}
+	return GenerateFor(r, maxOps, wantOOB, "native")
+}
+
+// GenerateFor is Generate for a target ("wasm": no bulk output, the JS run
+// time's bump allocator has 64 KiB in total).
+func GenerateFor(r *core.Rng, maxOps int, wantOOB bool, target string) *Program {
+	g := &gen{r: r, noBulk: target == "wasm", e: &env{arrs: map[string][]string{}, strs: map[string]string{}, vars: map[string]int64{}}, types: map[string]string{}, litLen: map[string]int{}}
 	var top []stmt
 	run := func(s stmt) bool { top = append(top, s); return s.run(g.e) }
 
@@ -587,7 +595,26 @@ func Generate(r *core.Rng, maxOps int, wantOOB bool) *Program {
 			v := fmt.Sprintf("i%d", loopN)
 			it := int64(r.Range(1, 6))
 			w := whileStmt{v: v, n: it}
-			switch r.Intn(3) {
+			switch r.Intn(5) {
+			case 3: // read a string byte by byte with the counter (and from the end)
+				if sv, ok := g.e.strs["s0"]; ok && len(sv) > 0 {
+					w.n = int64(len(sv))
+					w.body = []stmt{printIdx{g.tag(), "s0", loopVar{v}}, printIdx{g.tag(), "s0", negLoop{v}}}
+				} else {
+					w.body = []stmt{tagStmt{g.tag()}}
+				}
+			case 4: // bulk output: more than a stdio buffer (4 KiB pipes, 64 KiB pipes) before whatever comes next
+				if g.bulk || g.noBulk {
+					w.body = []stmt{tagStmt{g.tag()}}
+					break
+				}
+				g.bulk = true
+				w.n = int64(core.Pick(r, []int{300, 700, 2500, 9000}))
+				if n > 0 {
+					w.body = []stmt{tagStmt{g.tag()}, printIdx{g.tag(), a, lit(0)}}
+				} else {
+					w.body = []stmt{tagStmt{g.tag()}, tagStmt{g.tag()}}
+				}
 			case 0: // grow, then read the element just appended by position n+i
 				w.body = []stmt{appendStmt{g.tag(), a, g.val(g.types[a])}, printIdx{g.tag(), a, lenMinus{a, 1}}, printIdx{g.tag(), a, negLoop{v}}}
 				g.nApp += int(it)
